@@ -337,8 +337,11 @@ func (fr *frame) enterLoop(li *loopInfo, edges []inEdge) *State {
 		}
 	}
 	li.invs = append(li.invs, fr.autoCandidates(li, pre)...)
+	li.invs = append(li.invs, fr.frameCandidates(li)...)
 	for _, inv := range li.invs {
+		fr.provingInv = true
 		t := inv.eval(pre)
+		fr.provingInv = false
 		if t == nil {
 			continue
 		}
@@ -454,7 +457,9 @@ func sortedAllocSet(m map[*ssa.Alloc]bool) []*ssa.Alloc {
 func (fr *frame) closeLoop(li *loopInfo, st *State, from *ssa.BasicBlock) {
 	vc := fr.vc
 	for _, inv := range li.invs {
+		fr.provingInv = true
 		t := inv.eval(st)
+		fr.provingInv = false
 		if t == nil {
 			continue
 		}
@@ -555,6 +560,7 @@ func (fr *frame) resolveLocal(name string, pos token.Pos, st *State) *SVal {
 func (fr *frame) evalLoopClause(li *loopInfo, cl *Clause, st *State) *Term {
 	vc := fr.vc
 	env := fr.loopEnv(li, st)
+	env.proving = fr.provingInv
 	t, err := env.trBool(cl.E)
 	if err != nil {
 		vc.specError(vc.con, cl, err)
@@ -737,6 +743,50 @@ func (fr *frame) autoCandidates(li *loopInfo, pre *State) []*invInst {
 				})
 			}
 		}
+	}
+	return out
+}
+
+// frameCandidates: when the function has a modifies clause, "everything outside it still has its entry value"
+// is offered as an automatic loop invariant for every heap component the loop may write.
+func (fr *frame) frameCandidates(li *loopInfo) []*invInst {
+	vc := fr.vc
+	if !fr.top || vc.con == nil || !vc.con.ModGiven || vc.noAuto || li.havocAll {
+		return nil
+	}
+	keys := map[string]bool{}
+	for k := range li.heapWrites {
+		keys[k] = true
+	}
+	for k := range li.allocInits {
+		keys[k] = true
+	}
+	var out []*invInst
+	for _, k := range sortedKeys(keys) {
+		k := k
+		if vc.heapSorts[k] == nil || strings.HasPrefix(k, "M!") {
+			continue
+		}
+		full := fmt.Sprintf("auto:%s/loop%d:frame(%s)", shortFuncName(fr.fn), li.ordinal, k)
+		if vc.disabledAuto[full] {
+			continue
+		}
+		vc.nauto++
+		out = append(out, &invInst{name: full, auto: vc.nauto, pos: loopPos(li.header), eval: func(st *State) *Term {
+			r := Atom("r!fc", SInt)
+			j := Atom("j!fc", vc.idxSort())
+			f := vc.frameFormula(k, st, r, j)
+			if f == nil {
+				return TTrue
+			}
+			if strings.HasPrefix(k, "E!") {
+				return Forall([]*Term{r, j}, f)
+			}
+			if strings.HasPrefix(k, "G!") {
+				return f
+			}
+			return Forall([]*Term{r}, f)
+		}})
 	}
 	return out
 }
